@@ -366,6 +366,10 @@ pub fn exec(s: &mut CrdtSession, toks: &[&str]) -> Vec<String> {
             let r = d.splice_text(parse_exid(toks[2]), toks[3].parse::<usize>().unwrap(), toks[4].parse::<isize>().unwrap(), &text);
             vec![res_str(&r)]
         }
+        "crdt.rollback" => {
+            let d = s.replicas.get_mut(toks[1]).unwrap();
+            vec![format!("{}", d.rollback())]
+        }
         "crdt.commit" => {
             let d = s.replicas.get_mut(toks[1]).unwrap();
             let h = d.commit_with(automerge::transaction::CommitOptions::default().with_time(0));
@@ -503,12 +507,18 @@ pub fn local_tx(r: &mut Rng, sess: &mut Session, out: &mut Out, who: &str, known
         let len = d.length(parse_exid(&obj)) as u64;
         let line = match ty {
             ObjType::Map | ObjType::Table => {
-                let k = format!("m{}", hex::encode(KEYS[r.below(KEYS.len() as u64) as usize].as_bytes()));
+                let mut k = format!("m{}", hex::encode(KEYS[r.below(KEYS.len() as u64) as usize].as_bytes()));
+                    // bias: keys that currently hold a counter (for increments) / an existing value (equal puts)
+                    let oid = parse_exid(&obj);
+                    let counters: Vec<String> = d.keys(&oid).filter(|key| matches!(d.get(&oid, key.as_str()), Ok(Some((Value::Scalar(v), _))) if matches!(v.as_ref(), ScalarValue::Counter(_)))).collect();
+                    let mut same_val: Option<String> = None;
+                    if r.chance(1, 5) { if let Ok(Some((Value::Scalar(v), _))) = d.get(&oid, &String::from_utf8(hex::decode(&k[1..]).unwrap()).unwrap()) { same_val = Some(show_scalar(v.as_ref())); } }
                 match r.below(10) {
                     0 | 1 => format!("crdt.putobj {} {} {} {}", who, obj, k, ["M", "L", "T"][r.below(3) as usize]),
                     2 => format!("crdt.del {} {} {}", who, obj, k),
-                    3 | 4 => format!("crdt.inc {} {} {} {}", who, obj, k, r.below(5) as i64 - 1),
-                    _ => format!("crdt.put {} {} {} {}", who, obj, k, rand_scalar(r)),
+                    3 | 4 => { if !counters.is_empty() && r.chance(4, 5) { k = format!("m{}", hex::encode(counters[r.below(counters.len() as u64) as usize].as_bytes())); }
+                               format!("crdt.inc {} {} {} {}", who, obj, k, r.below(5) as i64 - 1) }
+                    _ => { let v = match same_val { Some(v) => { out.count("put_same_value"); v } None => rand_scalar(r) }; format!("crdt.put {} {} {} {}", who, obj, k, v) }
                 }
             }
             ObjType::List => {
@@ -531,6 +541,12 @@ pub fn local_tx(r: &mut Rng, sess: &mut Session, out: &mut Out, who: &str, known
         let res = exec_line(sess, &line, out);
         out.count(&format!("edit_{}", line.split(' ').next().unwrap()));
         if res.get(0).map(|s| s.starts_with("err")).unwrap_or(false) { out.count("edit_errors"); }
+    }
+    if r.chance(1, 12) {
+        exec_line(sess, &format!("crdt.rollback {}", who), out);
+        exec_line(sess, &format!("crdt.state {}", who), out);
+        out.count("rollbacks");
+        return;
     }
     let res = exec_line(sess, &format!("crdt.commit {}", who), out);
     if res[0] == "ok" {
